@@ -61,6 +61,7 @@ func rulesC07(c *Ctx) {
 	// errors recorded while a child store persists the shared fields through the parent context
 	ruleParentChain(c, "C07.CHAIN")
 	ruleWrapperForwards(c, "C07.WRAPFORWARD")
+	ruleFkExists(c, "C07.EXISTS")
 	// a failing pre-commit action aborts only if it was appended to the list the transaction runs
 	ruleCtxIdentity(c, "C07.CTXIDENTITY")
 	ruleErrHolderShared(c, "C07.CHAINHOLDER")
